@@ -209,7 +209,55 @@ func TestC02_KnownProbes(t *testing.T) {
 			}
 		}
 	}
+	// sparse-stops-at-first-nonmatch and clipby-ignored-for-circles: small histories
+	smallProbes := []struct {
+		finding string
+		name    string
+		sets    [][]string // id = s0, s1, ...
+		pred    string
+		sparse  []int
+		area    areaSpec
+	}{
+		{findingSparseStop, "sparse-near-miss-first", [][]string{{"POINT", "8.5", "-8.5"}, {"POINT", "-2", "2"}, {"POINT", "-3", "-3"}}, "intersects", []int{1, 2, 4},
+			areaSpec{Args: []string{"CIRCLE", "0", "0", "1000000"}}},
+		{findingSparseStop, "sparse-near-miss-first", [][]string{{"POINT", "8.5", "-8.5"}, {"POINT", "-2", "2"}, {"POINT", "-3", "-3"}}, "within", []int{1, 2, 4},
+			areaSpec{Args: []string{"CIRCLE", "0", "0", "1000000"}}},
+		{findingClipCircle, "circle-clipby", [][]string{{"POINT", "-1", "-1"}, {"POINT", "1", "1"}, {"BOUNDS", "-3", "-3", "-2", "-2"}}, "intersects", []int{0},
+			areaSpec{Args: []string{"CIRCLE", "0", "0", "500000"}, Clip: [][]string{{"BOUNDS", "0", "0", "10", "10"}}}},
+		{findingClipCircle, "circle-clipby", [][]string{{"POINT", "-1", "-1"}, {"POINT", "1", "1"}}, "within", []int{0},
+			areaSpec{Args: []string{"CIRCLE", "0", "0", "500000"}, Clip: [][]string{{"BOUNDS", "0", "0", "10", "10"}}}},
+		{findingClipCircle, "get-circle-clipby", [][]string{{"OBJECT", `{"type":"Feature","geometry":{"type":"Point","coordinates":[0,0]},"properties":{"type":"Circle","radius":500000,"radius_units":"m"}}`}, {"POINT", "-1", "-1"}, {"POINT", "1", "1"}}, "intersects", []int{0},
+			areaSpec{Args: []string{"GET", theKey, "s0"}, Clip: [][]string{{"BOUNDS", "0", "0", "10", "10"}}}},
+	}
+	for _, sp := range smallProbes {
+		var h history
+		for i := range sp.sets {
+			h.Steps = append(h.Steps, step{Op: "set", ID: fmt.Sprintf("s%d", i), Obj: &objSpec{sp.sets[i]}})
+		}
+		for _, n := range sp.sparse {
+			a := sp.area
+			h.Steps = append(h.Steps, step{Op: "query", Pred: sp.pred, Sparse: n, Area: &a})
+		}
+		levels := []string{"collection", "server"}
+		if sp.area.kind() == "get" {
+			levels = []string{"server"}
+		}
+		for _, level := range levels {
+			c.Case()
+			h.Level = level
+			if msg := historyFails(h, conn); msg != "" {
+				reproduced[sp.finding] = append(reproduced[sp.finding], sp.name+"/"+level+"/"+sp.pred+": "+msg)
+				c.Label("reproduced:" + sp.name)
+				if firstReplay[sp.finding] == nil {
+					hh := h
+					firstReplay[sp.finding] = &hh
+				}
+			}
+		}
+	}
 	whats := map[string]string{
+		findingSparseStop: "SPARSE returns nothing although objects match (the first index candidate that fails the exact test ends the sparse search): ",
+		findingClipCircle: "CLIPBY has no effect on a circle area: objects outside the CLIPBY rectangle are returned: ",
 		findingNonFinite:  "SET ... OBJECT accepts and indexes geometries with null (NaN) / 1e999 (Inf) coordinates; the NaN boxes corrupt the R-tree and WITHIN/INTERSECTS miss ordinary objects that SCAN/GET still return: ",
 		findingClipSimple: "WITHIN/INTERSECTS key GET key id CLIPBY <rect> does not clip a referenced plain point (clip.Clip has no case for *geojson.SimplePoint): a point outside the rectangle still matches itself, while TEST ... INTERSECTS CLIP / clip.Clip of a *geojson.Point give an empty area: ",
 		findingNested:     "a circle feature nested in a FeatureCollection is indexed / searched by the box of its 64-gon (searchRect only widens a top-level *geojson.Circle), so another circle that overlaps its disc outside that box satisfies TEST (circle-vs-circle compares centre distances) and is missed by the search: ",
@@ -219,7 +267,7 @@ func TestC02_KnownProbes(t *testing.T) {
 		findingNaN:        "a circle object whose disc touches a pole has NaN vertices (math.Asin(1.0000000000000002) in geo.DestinationPoint); its NaN box corrupts the R-tree for other objects (deletes fail silently, deleted ids are returned, live objects are missed): ",
 		findingEmpty:      "an empty collection object is WITHIN any CIRCLE according to TEST / the predicate (vacuous truth in Circle.Contains) and is never returned by WITHIN (empty geometries are not indexed): ",
 	}
-	for _, fid := range append([]string{findingClipSimple, findingNonFinite}, allFindings...) {
+	for _, fid := range append([]string{findingClipSimple, findingNonFinite, findingSparseStop, findingClipCircle}, allFindings...) {
 		if len(reproduced[fid]) == 0 {
 			continue
 		}
